@@ -84,9 +84,18 @@ func c07GenMut(f *core.Rand, ptLen, tag, nonceLen, aadLen int) wire.Mut {
 	case 1:
 		return wire.Mut{Field: "ct", Kind: "flip", I: 8*ptLen + f.Intn(8*tag)}
 	case 2:
+		if f.Chance(1, 3) { // last byte
+			return wire.Mut{Field: "nonce", Kind: "flip", I: 8*(nonceLen-1) + f.Intn(8)}
+		}
 		return wire.Mut{Field: "nonce", Kind: "flip", I: f.Intn(8 * nonceLen)}
 	case 3:
 		if aadLen > 0 {
+			switch f.Intn(4) {
+			case 0: // last byte
+				return wire.Mut{Field: "aad", Kind: "flip", I: 8*(aadLen-1) + f.Intn(8)}
+			case 1: // first byte
+				return wire.Mut{Field: "aad", Kind: "flip", I: f.Intn(8)}
+			}
 			return wire.Mut{Field: "aad", Kind: "flip", I: f.Intn(8 * aadLen)}
 		}
 		return wire.Mut{Field: "aad", Kind: "extend", I: 1, V: f.Intn(256)}
@@ -156,7 +165,7 @@ func (c07) Generate(idx int, r *core.Rand, tier string) core.Script {
 	}
 	nm := w.Range(1, 4)
 	for i := 0; i < nm; i++ {
-		m := c07Msg{PtLen: c10GenLen(w), AadLen: w.PickInt(0, 0, 1, 13, 16, 17, 32, 100, 129, 300), PtSeed: w.Uint64(), AadSeed: w.Uint64(), NonceSeed: w.Uint64()}
+		m := c07Msg{PtLen: c10GenLen(w), AadLen: w.PickInt(0, 0, 1, 13, 16, 17, 32, 64, 100, 127, 128, 129, 133, 143, 144, 192, 193, 200, 207, 256, 257, 261, 300), PtSeed: w.Uint64(), AadSeed: w.Uint64(), NonceSeed: w.Uint64()}
 		if i > 0 && w.Chance(1, 3) { // same length as message 0 so that splices line up
 			m.PtLen = s.Msgs[0].PtLen
 		}
